@@ -4,6 +4,7 @@ CONSTANTS
   TTL_R = 5
   MaxClock = 7
   MaxIds = 8
+  MaxTokenOnly = 2
   MaxSteps = 12
   Secrets = {0, 1, 2}
   Findings = {"stateless", "oldsecret", "refreshexp", "defaultsecret"}
